@@ -1150,11 +1150,12 @@ pub fn properties() -> Vec<Property> {
     },
     Property {
       id: "C14",
-      rule: "cases = C02-C04 pipelines subscribed by 2..3 recorders: one after another, interleaved on hot sources (second joins mid-stream), nested (second subscribe from inside a callback of the first); oracle = every subscriber's trace equals the reference trace of an independent subscription, tap log and factory calls per subscription; non-trivial = >= 2 subscriptions to a pipeline with a stateful operator; large: up to 12 recorders, scripts of up to 30 items, large count parameters",
+      rule: "cases = C02-C04 pipelines subscribed by 2..3 recorders: one after another, interleaved on hot sources (second joins mid-stream), nested (second subscribe from inside a callback of the first); oracle = every subscriber's trace equals the reference trace of an independent subscription, tap log and factory calls per subscription; non-trivial = >= 2 subscriptions to a pipeline with a stateful operator; large: up to 12 recorders, scripts of up to 30 items, large count parameters; conc: a chain of 1..3 single-source operators over a synchronous source, subscribed by two threads at the same time under a generated schedule - each receives what a subscriber on its own receives, non-trivial = the two subscribe calls overlapped",
       assumptions: vec!["harness hot sources serve observers in subscription order on both sides"],
       subs: vec![
         mk_sub("resubscribe", (1500, 30_000), c14_strategy, c14_check),
         mk_sub("large", (200, 4_000), c14_large_strategy, c14_large_check),
+        super::conc::sub_c14_conc(),
       ],
     },
   ]
